@@ -84,8 +84,14 @@ def build_segy(case, d, data):
     xlines = gen.axis_values(xl0, xls, n_xl)
     dt_us = case.get("dt_us", 4000)
     cols = sgy.base_cols(n_il * n_xl, ns, dt_us, case.get("delay", 0))
-    cols.update(sgy.regular_cols(ilines, xlines))
     path = os.path.join(d, "in.sgy")
+    if case.get("sorting", 2) == 1:
+        # the same regular cube stored crossline by crossline (segyio sorting 1)
+        cols.update({sgy.IL: np.tile(np.asarray(ilines), n_xl), sgy.XL: np.repeat(np.asarray(xlines), n_il)})
+        sgy.write_segy(path, np.ascontiguousarray(data.transpose(1, 0, 2)).reshape(n_il * n_xl, ns), cols, dt_us,
+                       fmt=case.get("fmt", 5), grid=(ilines, xlines), ext_headers=case.get("ext", 0), sorting=1)
+        return path
+    cols.update(sgy.regular_cols(ilines, xlines))
     sgy.write_segy(path, data.reshape(n_il * n_xl, ns), cols, dt_us, fmt=case.get("fmt", 5),
                    grid=(ilines, xlines), ext_headers=case.get("ext", 0))
     return path
@@ -127,10 +133,10 @@ def _run_case(case, ctx):
             pout = os.path.join(d, "prior.sgz")
             conv.segy_convert(ppath, pout, 4, (4, 4, -1), reduce_iops=(case["reader"] == "reduced"))
             import segyio
-            check_output(pout, np.array(segyio.tools.cube(ppath), dtype=np.float32), 4, (4, 4, 512))
+            check_output(pout, sgy.inline_cube(ppath), 4, (4, 4, 512))
         path = build_segy(case, d, data)
         import segyio
-        src = np.array(segyio.tools.cube(path), dtype=np.float32)
+        src = sgy.inline_cube(path)
         if src.shape != shape:
             raise RuntimeError(f"harness: segyio cube {src.shape} != {shape}")
         if route == "segy":
@@ -182,7 +188,8 @@ def _run_case(case, ctx):
     return {"sig": signature(case) if nontrivial(case) else None,
             "labels": [route, f"rate={rate}", "multiblock" if any(n > b for n, b in zip(shape, bs)) else "singleblock",
                        "unaligned" if any(n % 4 for n in shape) else "aligned"] + (["reused-converter"] if earlier else [])
-                      + (["after-prior-conversion"] if case.get("prior") is not None else [])}
+                      + (["after-prior-conversion"] if case.get("prior") is not None else [])
+                      + (["crossline-sorted"] if case.get("sorting") == 1 else [])}
 
 
 @st.composite
@@ -208,6 +215,7 @@ def segy_cases(draw, settings=None):
             "fmt": draw(st.sampled_from([1, 5])), "ext": draw(st.sampled_from([0, 0, 1, 2])),
             "queue": draw(st.sampled_from([1, 2, 16])), "reader": draw(st.sampled_from(["segyio", "reduced"])),
             "il": list(il), "xl": list(xl), "mode": draw(st.sampled_from(["heuristic", "thorough", "exhaustive", "strip"])),
+            "sorting": draw(st.sampled_from([2, 2, 2, 1])),
             "dt_us": draw(st.sampled_from([1000, 2000, 4000])), "delay": draw(st.sampled_from([0, 0, 100, -20]))}
 
 
